@@ -160,6 +160,8 @@ def register(I, R, hooks):
             return tuple(dec_items(v))
         if isinstance(v, _interp.VariantOrCtor):
             v = Adt(v.enum, v.variant)
+        if isinstance(v, Adt) and v.ty == "NonZero":
+            return display(I, v.fields[0], st, flags, width)
         if isinstance(v, (Adt, Struct)):
             return call_fmt_impl(I, v, st, "Display", flags, width)
         raise Unsupported("Display of %r" % (v,))
